@@ -93,7 +93,7 @@ def main():
             if cglib.compare_model(ck, scn, impl, model, "C11", fields=("new", "state")):
                 pass
             if not (impl and isinstance(impl[-1], dict) and "exc" in impl[-1] and "tb" in impl[-1]):
-                spec_cross_check(ck, scn, impl, sb)
+                common.guarded(ck, "C11-oracle", {"ops": scn["ops"]}, spec_cross_check, ck, scn, impl, sb)
         ck.sample({"scenario_ops": scns[0]["ops"][:4], "n_ops": len(scns[0]["ops"])})
         ck.cov.update({"distinct_nontrivial": len(distinct), "programs": len(scns),
                        "rule": "generated covergroup scenarios (1-2 covergroup classes, 1-2 parameterised shapes each, 1-3 coverpoints of every bin kind, crosses of 2-3 coverpoints, iff on crosses and coverpoints, 6-30 ops: instance creation / sample / state read); non-trivial = contains at least one cross; distinct by (cross definitions, bin specifications)",
@@ -109,4 +109,4 @@ def main():
 
 
 if __name__ == "__main__":
-    main()
+    common.run_main(main)
